@@ -148,6 +148,8 @@ pub struct Setup {
     /// soft RLIMIT_NOFILE for the shell process
     pub nofile: Option<u64>,
     pub preempt: bool,
+    /// absolute paths removed after the standard files were created (e.g. /bin/false)
+    pub remove_files: Vec<String>,
 }
 
 impl Setup {
@@ -164,6 +166,7 @@ impl Setup {
             drain: true,
             nofile: None,
             preempt: false,
+            remove_files: vec![],
         }
     }
     pub fn args(mut self, args: &[&str]) -> Setup {
@@ -314,6 +317,15 @@ pub fn run(setup: &Setup) -> RunResult {
         }
         save_file(&mut st, "/dev/null", &FileSpec::Regular { content: String::new(), mode: 0o666, exec: false });
         save_file(&mut st, &setup.cwd, &FileSpec::Dir { mode: 0o755 });
+        for path in &setup.remove_files {
+            if let Some((dir, name)) = path.rsplit_once('/') {
+                if let Ok(d) = st.file_system.get(if dir.is_empty() { "/" } else { dir }) {
+                    if let FileBody::Directory { files } = &mut d.borrow_mut().body {
+                        files.retain(|k, _| k.to_string_lossy() != name);
+                    }
+                }
+            }
+        }
         for (path, spec) in &setup.files {
             let full = if path.starts_with('/') { path.clone() } else { format!("{}/{}", setup.cwd, path) };
             save_file(&mut st, &full, spec);
